@@ -333,8 +333,11 @@ ProcProposal(cs, c, e, g, recEpoch, nm) ==
                                         !.out = Append(@, [name |-> nm.name, kind |-> "commit", g |-> g, author |-> c, gen |-> cs.g[g].sentH,
                                                            parent |-> cs.g[g].chain, ts |-> nm.ts, rank |-> nm.rank,
                                                            tag |-> cs.g[g].rec.data.nid,
-                                                           eff |-> Eff("propcommit", {}), refs |-> cs1.g[g].props,
-                                                           result |-> ApplyEff(MlsState(cs, g), Eff("propcommit", {}), cs1.g[g].props)])]
+                                                           \* (the MLS library drops the committer's own Update proposals)
+                                                           eff |-> Eff("propcommit", {}),
+                                                           refs |-> {p \in cs1.g[g].props : ~(p.k = "update" /\ p.a = c)},
+                                                           result |-> ApplyEff(MlsState(cs, g), Eff("propcommit", {}),
+                                                                               {p \in cs1.g[g].props : ~(p.k = "update" /\ p.a = c)})])]
                  IN  Ret(SetProc(cs2, e, "processed", g, cur), "Proposal")
       [] OTHER -> Ret(SetProc(cs, e, "processed", g, cur), "IgnoredProposal")
 
